@@ -586,6 +586,39 @@ func run(t *rapid.T) {
 
 			e.observe(r2.Cmd)
 		},
+		// the name comes back through RENAME INBOX (which creates the target and moves the messages of INBOX there)
+		"deleteRenameInbox": func(t *rapid.T) {
+			s := pickSess(t)
+			e.barrier()
+
+			box := boxes[rapid.IntRange(1, len(boxes)-1).Draw(t, "box")]
+			r1 := s.Do("DELETE " + box)
+			e.observe(r1.Cmd)
+
+			for _, x := range e.sess {
+				if x != nil && !x.Dead && strings.EqualFold(x.Selected, box) {
+					x.Do("NOOP")
+					x.Dead = true
+				}
+			}
+
+			e.revive()
+
+			s = e.sess[0]
+			r2 := s.Do("RENAME INBOX " + box)
+			e.op("delete %s -> %s, rename INBOX %s -> %s", box, r1.Status, box, r2.Status)
+
+			if r1.OK() && !r2.OK() {
+				e.fail("RENAME INBOX %s after DELETE %s refused: %v", box, box, r2)
+			}
+
+			if r1.OK() {
+				e.armed = true
+				e.labels["rename-inbox-onto-former-name"] = true
+			}
+
+			e.observe(r2.Cmd)
+		},
 		"bump": func(t *rapid.T) {
 			d := e.b.DeliverNow(e.u, imap.NewUIDValidityBumped())
 			e.op("conn UIDValidityBumped err=%v", d[0].Err)
